@@ -11,6 +11,8 @@ CONSTANTS
   CRProg <- QB_CR
   Forms = {"fresh"}
   Colls = {}
+  LAs <- NoLA_QB
+  DropOn = FALSE
   QuitOn = FALSE
   QuitDeferred = FALSE
   DefCap = 0
